@@ -99,13 +99,17 @@ theorem reachable_noNullChain {shift : Nat} {lt : Search.LexTree} {g : Hist.Fsg}
 
 /-! ### (W): no word exit in frame 0
 
-(W) is **not** a consequence of the relational model: `EvalOut n h h'` lets the exit state take its score from
-*any* emitting state `i ∈ List.range n` — also from state 0, the state `hmm_enter` makes live — so a leaf entered by
-`fsg_search_start` may exit in the very first frame (`SearchExtra.Cx`, a machine-checked reachable state with a
-word entry in frame 0).  What the code does (`hmm_vit_eval_3st_lr`: the exit block reads only `s1`, `s2`; in
-general: the topology has no arc from state 0 to the exit state) is `OutLater`: a live exit score comes from a
-live exit score or from a live emitting state `i ≥ 1`.  Under that extra condition on the step out of frame 0
-(`ReachableL`) (W) is proved; `evalHist3_outLater` shows that the exact 3-state evaluation meets it. -/
+(W) follows from the relational model for the two topologies `hmm_vit_eval` has dedicated evaluators for
+(`lt.nst = 3` — every shipped model — and `lt.nst = 5`): `EvalOut n h h'` lets the exit state take its score only
+from an emitting state `i` with `OutFrom n i`, i.e. never from state 0, the state `hmm_enter` makes live
+(`hmm_vit_eval_3st_lr`: the exit block reads only `s1`, `s2`; `hmm_vit_eval_5st_lr`: only `s3`, `s4`).  So
+`OutLater` — a live exit score comes from a live exit score or from a live emitting state `i ≥ 1` — holds of every
+evaluated HMM (`evalOut_outLater`, `stepRel_outLaterStep`), every `Reachable` state is `ReachableL`
+(`Reachable.reachableL`), and no leaf entered by `fsg_search_start` can exit in the very first frame.  Until round 3
+`EvalOut` allowed `i = 0` and (W) was *not* derivable (`SearchExtra.Cx`: the state pair that used to be a model
+step is now rejected by `HmmsStep`).  For the other topologies (`hmm_vit_eval_anytopo`) an arc from state 0 to the
+exit state may exist in the transition matrix, and then the C code does exit in the frame of entry:
+`SearchExtra.Cx2` keeps that as a machine-checked reachable state with `nst = 2`. -/
 namespace SearchExtra
 open SSVerif.Generated.Search (worstScore)
 
@@ -233,7 +237,35 @@ theorem reachableL_wInv {shift : Nat} {lt : LexTree} {g : Fsg} {s : SState} (lok
   | step _ st hx ih => exact step_wInv st hx ih
   | again hr' st _ => exact start_wInv (finish_allCleared (reachable_inv lok hr'.reachable).hmms) st
 
-/-! #### the relational model alone allows a word exit in frame 0 -/
+/-- the exit clause of the step relation implies `OutLater` for 3- and 5-state HMMs -/
+theorem evalOut_outLater {n : Nat} (hn : LaterTopo n) {h h' : Hmm} (ev : EvalOut n h h') : OutLater n h h' := by
+  intro hl
+  rcases ev with ⟨_, hlv⟩ | ⟨i, hi, hfrom, _, hlv⟩
+  · exact Or.inl (hlv hl)
+  · refine Or.inr ⟨i, hi, ?_, hlv hl⟩
+    rcases hn with hn | hn
+    · have := hfrom.1 hn; omega
+    · have := hfrom.2 hn; omega
+
+/-- **`OutLaterStep` is part of the step relation**: in a frame of the modelled search over 3- or 5-state HMMs
+no evaluated HMM gets a live exit score out of its entry state -/
+theorem stepRel_outLaterStep {shift : Nat} {lt : LexTree} {g : Fsg} {s s' : SState} (hn : LaterTopo lt.nst)
+    (st : StepRel shift lt g s s') : OutLaterStep lt s s' := by
+  intro p hpa hpa'
+  obtain ⟨_, hact', hstep⟩ := st.hmms
+  have hout := ((hstep p (hact' p hpa')).2 hpa').2.2.1
+  simp only [hpa, if_true] at hout
+  exact evalOut_outLater hn hout
+
+/-- every reachable state of the modelled search over 3- or 5-state HMMs is `ReachableL` -/
+theorem _root_.SSVerif.Search.Reachable.reachableL {shift : Nat} {lt : LexTree} {g : Fsg} {s : SState}
+    (hn : LaterTopo lt.nst) (hr : Reachable shift lt g s) : ReachableL shift lt g s := by
+  induction hr with
+  | first h0 st => exact .first h0 st
+  | step _ st ih => exact .step ih st (fun _ => stepRel_outLaterStep hn st)
+  | again _ st ih => exact .again ih st
+
+/-! #### the state pair that the model accepted as a frame-0 word exit until round 3 is no step any more -/
 namespace Cx
 def g : Fsg := { links := #[⟨0, 1, 0, 0⟩], start := 0, final := 1, filler := [] }
 def lt : LexTree := { nst := 3, nodes := #[{ owner := 0, leaf := true, link := 0 }], root := #[some 0, none] }
@@ -244,31 +276,60 @@ def s1 : SState := { frame := 0, hist := #[dummy], hmms := #[hm1], active := [0]
 def e1 : Entry := { link := some 0, frame := 0, score := -5, pred := 0 }
 def hm2 : Hmm := { frame := 1, score := [-5, -5, -5], hist := [0, 0, 0], outScore := -5, outHist := 0 }
 def s2 : SState := { frame := 1, hist := #[dummy, e1], hmms := #[hm2], active := [0] }
+/-- the same frame without the exit: the token moves from state 0 to state 1 only -/
+def hm2' : Hmm :=
+  { frame := 1, score := [-5, -5, worstScore], hist := [0, 0, -1], outScore := worstScore, outHist := -1 }
+def s2' : SState := { frame := 1, hist := #[dummy], hmms := #[hm2'], active := [0] }
 
 theorem lok : LexTreeOK lt g := by decide
 theorem cleared : AllCleared lt s0 := by decide
 theorem start : StartRel 10 lt g s0 s1 := startRelB_sound (by decide)
-theorem step : StepRel 10 lt g s1 s2 := stepRelB_sound (by decide)
-theorem reach : Reachable 10 lt g s2 := .step (.first cleared start) step
 theorem not_wordFrame : ¬ WordFrame g s2.hist := by
   intro h
   have := h 1 0 (by decide) (by decide) (by decide) (by decide)
   revert this
   decide
+/-- the exit in the frame of entry is rejected (by the `EvalOut` clause of `HmmsStep`) … -/
+theorem not_step : ¬ StepRel 10 lt g s1 s2 := fun st => absurd st.hmms (by decide)
+theorem stepRelB_false : stepRelB 10 lt g s1 s2 = false := by decide
+/-- … the step that moves the token one state is accepted -/
+theorem step' : StepRel 10 lt g s1 s2' := stepRelB_sound (by decide)
 end Cx
+
+/-! #### with `hmm_vit_eval_anytopo` (here: 2 emitting states) the exit in the frame of entry remains possible -/
+namespace Cx2
+def lt : LexTree := { nst := 2, nodes := #[{ owner := 0, leaf := true, link := 0 }], root := #[some 0, none] }
+def s0 : SState := { frame := 0, hist := #[], hmms := #[Hmm.clear 2], active := [] }
+def hm1 : Hmm := { frame := 0, score := [0, worstScore], hist := [0, -1], outScore := worstScore, outHist := -1 }
+def s1 : SState := { frame := 0, hist := #[dummy], hmms := #[hm1], active := [0] }
+def hm2 : Hmm := { frame := 1, score := [-5, -5], hist := [0, 0], outScore := -5, outHist := 0 }
+def s2 : SState := { frame := 1, hist := #[dummy, Cx.e1], hmms := #[hm2], active := [0] }
+
+theorem lok : LexTreeOK lt Cx.g := by decide
+theorem cleared : AllCleared lt s0 := by decide
+theorem start : StartRel 10 lt Cx.g s0 s1 := startRelB_sound (by decide)
+theorem step : StepRel 10 lt Cx.g s1 s2 := stepRelB_sound (by decide)
+theorem reach : Reachable 10 lt Cx.g s2 := .step (.first cleared start) step
+theorem not_wordFrame : ¬ WordFrame Cx.g s2.hist := Cx.not_wordFrame
+end Cx2
 
 end SearchExtra
 
 open SearchExtra in
-/-- (W) does **not** follow from the modelled search as it stands: a lextree with 3-state HMMs satisfying
-`LexTreeOK` and a `Reachable` state whose table holds a word entry of frame 0 (`EvalOut` lets the exit state be
-reached from emitting state 0 within one frame) -/
-theorem wordFrame_not_from_model :
+/-- **(W) from the modelled search**: in every reachable state of the search over 3- or 5-state HMMs every word
+entry of the history table was recorded in a frame `≥ 1` -/
+theorem reachable_wordFrame {shift : Nat} {lt : Search.LexTree} {g : Hist.Fsg} {s : Search.SState}
+    (lok : Search.LexTreeOK lt g) (hn : LaterTopo lt.nst) (hr : Search.Reachable shift lt g s) :
+    WordFrame g s.hist :=
+  (reachableL_wInv lok (hr.reachableL hn)).wordFrame
+
+open SearchExtra in
+/-- the hypothesis on the topology cannot be dropped: with 2 emitting states (`hmm_vit_eval_anytopo`, arc 0 → exit
+allowed) there is a reachable state with a word entry of frame 0 -/
+theorem wordFrame_needs_topology :
     ∃ (shift : Nat) (lt : Search.LexTree) (g : Hist.Fsg) (s : Search.SState),
-      Search.LexTreeOK lt g ∧ Search.Reachable shift lt g s ∧ 2 ≤ lt.nst ∧
-      ¬ (∀ i lid, 0 < i → i < s.hist.size → (Hist.ent s.hist i).link = some lid → ¬ (g.link lid).wid < 0 →
-          1 ≤ (Hist.ent s.hist i).frame) :=
-  ⟨10, Cx.lt, Cx.g, Cx.s2, Cx.lok, Cx.reach, by decide, Cx.not_wordFrame⟩
+      Search.LexTreeOK lt g ∧ Search.Reachable shift lt g s ∧ 2 ≤ lt.nst ∧ ¬ WordFrame g s.hist :=
+  ⟨10, Cx2.lt, Cx.g, Cx2.s2, Cx2.lok, Cx2.reach, by decide, Cx2.not_wordFrame⟩
 
 open SearchExtra in
 /-- T2 (W), conditional: no word exit is recorded in frame 0, when the step that searches frame 0 does not let an
@@ -305,5 +366,19 @@ theorem reachable_histWF_of_wordFrame {shift : Nat} {lt : Search.LexTree} {g : H
     (lok : Search.LexTreeOK lt g) (hr : Search.Reachable shift lt g s) (hw : WordFrame g s.hist) :
     HistWF g.toNfa (HistBridge.toH g s.hist) s.frame.toNat :=
   histWF_of_WFHist g s.hist s.frame (Search.reachable_inv lok hr).wf (reachable_extra_of_wordFrame lok hr hw)
+
+open SearchExtra in
+/-- the hypothesis `HistWF` of `C11_build_latticeOK` in every `Reachable` state of the search over 3- or 5-state HMMs,
+without an observation on the table -/
+theorem reachable_histWF {shift : Nat} {lt : Search.LexTree} {g : Hist.Fsg} {s : Search.SState}
+    (lok : Search.LexTreeOK lt g) (hn : LaterTopo lt.nst) (hr : Search.Reachable shift lt g s) :
+    HistWF g.toNfa (HistBridge.toH g s.hist) s.frame.toNat :=
+  reachableL_histWF lok (hr.reachableL hn)
+
+open SearchExtra in
+theorem reachable_extra {shift : Nat} {lt : Search.LexTree} {g : Hist.Fsg} {s : Search.SState}
+    (lok : Search.LexTreeOK lt g) (hn : LaterTopo lt.nst) (hr : Search.Reachable shift lt g s) :
+    HistBridge.Extra g s.hist :=
+  reachableL_extra lok (hr.reachableL hn)
 
 end SSVerif.Lattice
